@@ -58,6 +58,25 @@ func runNLVCase(cs nlvCase) (res map[string]interface{}, violated string) {
 	outs := make([]interface{}, 0, len(cs.Ops))
 	pan, msg := guard(func() {
 		for _, op := range cs.Ops {
+			// comparing is an observation: asked between any two calls, in the order the list has and against
+			// the reversed order, it says "equal" for the same pairs and leaves both lists as they were
+			if violated == "" && len(n) > 0 {
+				snap, other := cloneNLV(n), cloneNLV(n)
+				rev := cloneNLV(n)
+				for i, j := 0, len(rev)-1; i < j; i, j = i+1, j-1 {
+					rev[i], rev[j] = rev[j], rev[i]
+				}
+				revSnap := cloneNLV(rev)
+				eq1, eq2 := n.Equals(other), n.Equals(rev)
+				switch {
+				case !sameEntries(snap, n):
+					violated = fmt.Sprintf("Equals changed the list it was called on: %v became %v", dumpNLVPairs(snap), dumpNLVPairs(n))
+				case !sameEntries(snap, other) || !sameEntries(revSnap, rev):
+					violated = "Equals changed its argument"
+				case !eq1 || !eq2:
+					violated = fmt.Sprintf("a list does not compare equal to a list of the same pairs (same order: %v, reversed: %v): %v", eq1, eq2, dumpNLVPairs(snap))
+				}
+			}
 			before := cloneNLV(n)
 			switch op[0] {
 			case "get":
